@@ -45,6 +45,14 @@ struct Oracle {
     text_lo: u64,
     /// (start, end, table, seq) of every sequence whose start is at or above text_lo
     live_seqs: Vec<(u64, u64, usize, usize)>,
+    /// root of the default toolchain (`rustup default` + `rustup which rustc`): where `/rustc/<hash>/` is remapped to
+    std_root: Option<PathBuf>,
+}
+fn default_toolchain_root() -> Option<PathBuf> {
+    let d = run_tool("rustup", &["default"])?;
+    let name = d.split_whitespace().next()?.to_string();
+    let w = run_tool("rustup", &["which", "--toolchain", &name, "rustc"])?;
+    Some(PathBuf::from(w.trim()).parent()?.parent()?.to_path_buf())
 }
 
 fn tool(names: &[&str]) -> Option<String> {
@@ -178,18 +186,23 @@ impl Oracle {
         }
         live_seqs.sort_unstable();
         let sub_by_off = subs.iter().enumerate().map(|(i, s)| (s.off, i)).collect();
-        Some(Oracle { tables, subs, sub_by_off, die_name, insns, text_lo, live_seqs })
+        Some(Oracle { tables, subs, sub_by_off, die_name, insns, text_lo, live_seqs, std_root: default_toolchain_root() })
     }
     /// absolute path of file `idx` of a table, the DWARF way (comp_dir / dir / name)
     fn file_path(&self, ti: usize, idx: usize) -> PathBuf {
         self.tables[ti].paths.get(&idx).cloned().unwrap_or_else(|| PathBuf::from("<no-such-file>"))
     }
     /// does the path shown by the debugger denote the file the line table names? `/rustc/<hash>/..` paths are
-    /// remapped by the debugger to the local standard-library sources: compare what follows the hash.
-    fn paths_agree(shown: &Path, want: &Path) -> bool {
+    /// remapped by the debugger to the standard-library sources of the DEFAULT toolchain (`std_root`, asked from rustup
+    /// here): `<root>/lib/rustlib/src/rust/<what follows the hash>`. Exact equality otherwise — a unit that names the
+    /// same source through another toolchain's directory names, for the debugger's file index, ANOTHER file.
+    fn paths_agree(&self, shown: &Path, want: &Path) -> bool {
         if want.starts_with("/rustc/") {
             let tail: PathBuf = want.iter().skip(3).collect();
-            return shown == want || shown.ends_with(&tail);
+            return match &self.std_root {
+                Some(root) => shown == want || shown == root.join("lib/rustlib/src/rust").join(&tail),
+                None => shown == want || shown.ends_with(&tail),
+            };
         }
         shown == want
     }
@@ -241,14 +254,17 @@ impl Oracle {
     }
     /// is_stmt rows (non end_sequence) of `path:line` in live sequences: (addr, col, pe)
     fn stmt_rows(&self, path: &Path, line: u64) -> Vec<(u64, u64, bool)> {
+        self.line_rows(path, line).into_iter().filter(|(_, r, live)| *live && !r.es).map(|(_, r, _)| (r.addr, r.col, r.pe)).collect()
+    }
+    /// ALL is_stmt rows of `path:line`, whatever their sequence: (line table, row, the row's sequence is live code)
+    fn line_rows(&self, path: &Path, line: u64) -> Vec<(usize, ORow, bool)> {
         let mut v = vec![];
         for (ti, t) in self.tables.iter().enumerate() {
-            let _ = ti;
-            let fidx: Vec<usize> = t.paths.iter().filter(|(_, p)| Oracle::paths_agree(path, p)).map(|(i, _)| *i).collect();
+            let fidx: Vec<usize> = t.paths.iter().filter(|(_, p)| self.paths_agree(path, p)).map(|(i, _)| *i).collect();
             if fidx.is_empty() { continue; }
             for s in &t.seqs {
-                if s[0].addr < self.text_lo { continue; }
-                for r in s { if !r.es && r.stmt && r.line == line && fidx.contains(&r.file) { v.push((r.addr, r.col, r.pe)); } }
+                let live = s[0].addr >= self.text_lo;
+                for r in s { if r.stmt && r.line == line && fidx.contains(&r.file) { v.push((ti, r.clone(), live)); } }
             }
         }
         v
@@ -552,14 +568,14 @@ impl<'a> Sess<'a> {
                         self.w.count("oracle.pc.via_resolve_function_at_pc", 1);
                     }
                 }
-                let ok = matches!(&shown, Some((f, l, a)) if *l == want.line && *a == want.addr && Oracle::paths_agree(f, &want_path));
+                let ok = matches!(&shown, Some((f, l, a)) if *l == want.line && *a == want.addr && o.paths_agree(f, &want_path));
                 if !ok {
                     let es = got.as_ref().map(|p| p.end_sequence).unwrap_or(false);
                     let key = match &shown {
                         None => "pc-to-line-no-answer",
                         Some(_) if es => "pc-to-line-returns-end-sequence-row",
                         Some((_, _, a)) if *a == want.addr => "pc-to-line-picks-other-row-at-same-address",
-                        Some((f, l, _)) if *l == want.line && !Oracle::paths_agree(f, &want_path) => "pc-to-line-wrong-file-path",
+                        Some((f, l, _)) if *l == want.line && !o.paths_agree(f, &want_path) => "pc-to-line-wrong-file-path",
                         _ => "pc-to-line-wrong-row",
                     };
                     self.w.fail(key, format!("{}: pc {pc:#x}: shown {:?}, line table says {}:{} (row at {:#x})", self.prog, shown, want_path.display(), want.line, want.addr), self.replay(line));
@@ -665,7 +681,18 @@ impl<'a> Sess<'a> {
         for (s, rows) in &by_sub {
             let n = addrs.iter().filter(|a| o.subs[*s].ranges.iter().any(|r| r.0 <= **a && **a < r.1) && o.sub_of(**a) == Ok(Some(*s))).count();
             if n == 0 {
-                let key = "line-breakpoint-misses-function-or-instantiation";
+                // the recorded finding is the class "the function's rows of the line differ in column / flags from another row of the
+                // line in the SAME unit" (the sibling rule drops them); decided here on llvm-dwarfdump's rows only. A function none of
+                // whose rows has such a differing sibling in its own line table must get a breakpoint: every unit contributes.
+                let all_rows = o.line_rows(&path, which);
+                let has_differing_sibling = |a: u64| all_rows.iter().filter(|(_, r, live)| *live && !r.es && r.addr == a).all(|(ti, r, _)|
+                    all_rows.iter().any(|(tj, x, _)| tj == ti && (x.col, x.pe, x.eb, x.es) != (r.col, r.pe, r.eb, false)));
+                // a third class: the requested line has rows ONLY in sequences of discarded functions (addresses below the first
+                // instruction): the implementation takes those and never looks at the next line, whose functions get nothing
+                let dead_only = which == l + 1 && o.line_rows(&path, l).iter().any(|(_, _, live)| !*live);
+                let key = if dead_only { "line-breakpoint-not-moved-to-next-line-when-line-only-in-discarded-code" }
+                    else if rows.iter().all(|r| has_differing_sibling(r.0)) { "line-breakpoint-misses-function-or-instantiation" }
+                    else { "line-breakpoint-misses-function-without-differing-row-in-its-unit" };
                 self.w.fail(key, format!("{}: {tpl}:{l}: function {:?} (DIE {:#x}) has statements of line {which} at {:x?} but gets no breakpoint (breakpoints: {addrs:x?})",
                     self.prog, o.name_of(o.subs[*s].off), o.subs[*s].off, rows.iter().map(|r| r.0).collect::<Vec<_>>()), self.replay(line));
             } else if n > 1 {
@@ -771,6 +798,9 @@ fn exec_session(prog_name: &str, prog: &Path, oracle: Option<&Oracle>, lines: &[
     let mut s = Sess { dbg, prog: prog_name.to_string(), dump, ids, dump_set, oracle, started: None, w };
     s.check_dump_against_decoder();
     let oc = overflow_checks_on() as u8;
+    // a session written by hand (corpus) carries no dump lines: the live dump is inserted after its `new` line, so that the
+    // model gets the tables (generated sessions carry the dump of generation time, checked line by line: `ok` / `stale`)
+    let bare = !lines.iter().any(|l| l.starts_with("C04 unit "));
     for l in lines {
         let t: Vec<&str> = l.split(' ').collect();
         let ans = match t.as_slice() {
@@ -778,6 +808,10 @@ fn exec_session(prog_name: &str, prog: &Path, oracle: Option<&Oracle>, lines: &[
             _ => s.exec_line(l),
         };
         s.w.pairs.push((l.clone(), ans));
+        if bare && l.starts_with("C04 new ") {
+            for d in dump_lines(&s.dump, &s.ids) { s.w.pairs.push((d, "ok".into())); }
+            s.w.count("exec.dump_inserted_into_bare_session", 1);
+        }
     }
     let Sess { dbg, w, .. } = s;
     let _ = guarded(move || drop(dbg));   // the destructor may trip a debug assertion when the debuggee is already gone
